@@ -141,6 +141,8 @@ class Contract:
 
   def all_props(self):
     ps = set(self.props)
+    if self.total:
+      ps |= self.total_props      # a total contract's implicit-exception obligations belong to C18 whatever else it serves
     for c in self.requires + self.ensures + self.ghost_ensures:
       if c.props:
         ps |= c.props
